@@ -100,10 +100,26 @@ def rule_memo(ctx: Ctx) -> None:
     the_call = next(c for c in ast.walk(cfg.stmt[cn]) if isinstance(c, ast.Call) and norm(c.func) == "self.func")
     star = [norm(d.resolve(a.value)) for a in the_call.args if isinstance(a, ast.Starred)]
     dstar = [norm(d.resolve(k.value)) for k in the_call.keywords if k.arg is None]
-    good = star == ["evaluate_lazy(self.args)"] and dstar == ["evaluate_lazy(self.kwargs)"]
+    def every_def(e: ast.AST) -> list[str]:
+        """All values a splatted local can hold at the call (every assignment to it, tuple unpacking included)."""
+        if not isinstance(e, ast.Name) or d.unique(e.id) is not None:
+            return [norm(d.resolve(e))]
+        vals = []
+        for a_ in walk_no_nested(ev.node):
+            if isinstance(a_, ast.Assign):
+                for t_ in a_.targets:
+                    if isinstance(t_, ast.Name) and t_.id == e.id:
+                        vals.append(norm(d.resolve(a_.value)))
+                    if isinstance(t_, ast.Tuple) and isinstance(a_.value, ast.Tuple) and len(t_.elts) == len(a_.value.elts):
+                        vals += [norm(d.resolve(v_)) for x_, v_ in zip(t_.elts, a_.value.elts) if isinstance(x_, ast.Name) and x_.id == e.id]
+        return vals or [norm(e)]
+
+    star = [t for a in the_call.args if isinstance(a, ast.Starred) for t in every_def(a.value)]
+    dstar = [t for k in the_call.keywords if k.arg is None for t in every_def(k.value)]
+    good = bool(star) and bool(dstar) and set(star) == {"evaluate_lazy(self.args)"} and set(dstar) == {"evaluate_lazy(self.kwargs)"}
     raw = [t for t in star + dstar if t in ("self.args", "self.kwargs")] or ([] if star else ["*args missing"]) or ([] if dstar else ["**kwargs missing"])
     ctx.tri("2-memo", ev, the_call, good, bool(raw), "called with evaluate_lazy(self.args) / evaluate_lazy(self.kwargs)",
-            f"evaluate() passes {raw} to the function: lazy arguments are not resolved (or args/kwargs are dropped)", "argument resolution not recognised", key="args-resolved")
+            f"evaluate() passes {raw} to the function (on some path): lazy arguments are not resolved (or args/kwargs are dropped)", "argument resolution not recognised", key="args-resolved")
 
 
 def rule_recursion(ctx: Ctx) -> None:
@@ -206,8 +222,45 @@ def rule_dag(ctx: Ctx) -> None:  # noqa: C901, PLR0915
     ctx.tri("5-dag", cd, cd.node, fresh, False, "each construct_dag starts from an empty graph", "", "creation of the task graph not recognised", key="fresh")
 
 
+def rule_identity_preserving_cache(ctx: Ctx) -> None:
+    """A lazy pipeline caches the deferred NODES (_LazyFunction objects) and relies on getting the very same node back: a second
+    request that shares a producer with the first must reuse its already evaluated node.  A cache that pickles its values hands out
+    a fresh copy per hit, so the shared producer runs once per copy.  Rule: in create_cache, every cache class that has a
+    `...shared` switch (shared = values are pickled) gets it defaulted from `not lazy` before it is constructed."""
+    import re as _re
+
+    P = ctx.prog
+    cc = P.func("pipefunc._pipeline._cache.create_cache")
+    if "lazy" not in cc.param_names():
+        raise AnalysisError("create_cache has no `lazy` parameter")
+    par = {id(c): p_ for p_ in ast.walk(cc.node) for c in ast.iter_child_nodes(p_)}
+    n = 0
+    for r in [r for r in ast.walk(cc.node) if isinstance(r, ast.Return) and isinstance(r.value, ast.Call)]:
+        ctors = [c for c in ctx.cg.resolve_callable(cc, r.value.func) if c.name == "__init__"]
+        switches = sorted({p_ for c in ctors for p_ in c.param_names() if _re.fullmatch(r"(\w+_)?shared", p_)})
+        if not switches:
+            continue
+        kw = [norm(k.value) for k in r.value.keywords if k.arg is None]
+        block = par.get(id(r))
+        body = next((b for b in (getattr(block, "body", []), getattr(block, "orelse", [])) if any(x is r for x in b)), [])
+        before = body[: next(i for i, x in enumerate(body) if x is r)] if body else []
+        for sw in switches:
+            n += 1
+            direct = [k for k in r.value.keywords if k.arg == sw]
+            sets = [c for st in before for c in ast.walk(st) if isinstance(c, ast.Call) and isinstance(c.func, ast.Attribute) and c.func.attr in ("setdefault", "__setitem__") and norm(c.func.value) in kw
+                    and c.args and isinstance(c.args[0], ast.Constant) and c.args[0].value == sw]
+            sets += [st for st in before if isinstance(st, ast.Assign) and any(isinstance(t, ast.Subscript) and norm(t.value) in kw and isinstance(t.slice, ast.Constant) and t.slice.value == sw for t in st.targets)]
+            vals = [k.value for k in direct] + [c.args[1] for c in sets if isinstance(c, ast.Call) and len(c.args) > 1] + [st.value for st in sets if isinstance(st, ast.Assign)]
+            from_lazy = any(isinstance(x, ast.Name) and x.id == "lazy" for v in vals for x in ast.walk(v))
+            dyn = any(isinstance(c, ast.Call) and isinstance(c.func, ast.Attribute) and c.func.attr == "update" and norm(c.func.value) in kw for st in before for c in ast.walk(st))
+            ctx.tri("3-shared", cc, r, from_lazy, not vals and not dyn, f"{norm(r.value.func)}: `{sw}` defaults to `not lazy` (deferred nodes are cached by identity, not pickled)",
+                    f"{norm(r.value.func)}(...) is built without deriving `{sw}` from `lazy`: the class default (values pickled) applies to lazy pipelines too, every cache hit returns a COPY of the deferred node "
+                    "and a producer shared by two requests is evaluated once per copy instead of exactly once", f"how `{sw}` is set for {norm(r.value.func)} was not recognised", key=f"unshared-when-lazy {norm(r.value.func)}.{sw}")
+    ctx.floor("3-shared.cache-switches", n, 3)
+
+
 def check(ctx: Ctx) -> None:
-    for rule in (rule_deferred, rule_memo, rule_recursion, rule_dag):
+    for rule in (rule_deferred, rule_memo, rule_recursion, rule_dag, rule_identity_preserving_cache):
         ctx.run(rule)
 
 
